@@ -226,7 +226,7 @@ pub fn run(ctx: &Ctx) -> Report {
     total.merge(sym);
     total.exhaustive_parts.push("all 315 single clauses and all 99,225 ordered two-clause lists x 3 prefixes (tree compared with the chmod model; the emitted policy executed for all single clauses and 1 in 5 (quick) / all (thorough) pairs)".into());
     // random longer lists, random letter orders and repetitions
-    let cases = ctx.tier.pick(30_000u32, 2_000_000u32);
+    let cases = ctx.tier.pick(300_000u32, 3_000_000u32);
     let shards = 16;
     let rnd = run_shards(shards, |shard| {
         let mut st = Stats::new();
